@@ -128,6 +128,10 @@ def step : List String → String
     | some mj, some mn, some fl, some rkh, some pk, some isk =>
       okHex (CertBlock.exportV21Block { major := mj, minor := mn, rkr := { flags := fl, rkh := rkh, rootPublicKey := pk }, isk := isk })
     | _, _, _, _, _, _ => "bad-op"
+  | ["cb21_parse_obs", h] => match parseHex h with   -- observables of the parsed block: re-exported record, rkth, ISK certificate
+    | some b => resLine (fun cb => s!"{cb.major} {cb.minor} | {okHex (CertBlock.rkrExport cb.rkr)} {okHex (Rkht.rkthV21 execOps cb.rkr.rkh)} | " ++
+        (match cb.isk with | some i => dumpIsk i | none => "none")) (CertBlock.parseV21Block execOps (fun _ => true) b)
+    | none => "bad-op"
   | ["cb21_parse", h] => match parseHex h with
     | some b => resLine dumpCb21 (CertBlock.parseV21Block execOps (fun _ => true) b) | none => "bad-op"
   -- ISK certificate lite / certificate block Vx
